@@ -101,13 +101,13 @@ func family() []vector {
 		{[]int64{1, 1, 1, 1}, true}, // total 4
 		{[]int64{3, 2, 2, 2}, true}, // total 9
 		// thorough only
-		{[]int64{2, 2, 1}, false},                                                // total 5
-		{[]int64{3, 3, 3}, false},                                                // total 9
-		{[]int64{m3, m3, m3 - 1}, false},                                         // total == MaxTotalVotingPower-1
-		{[]int64{3, 1, 1, 1}, false},                                             // total 6
-		{[]int64{4, 3, 2, 1}, false},                                             // total 10
-		{[]int64{97, 1, 1, 1}, false},                                            // total 100
-		{[]int64{1 << 58, 1 << 58, 1 << 58, maxTotal - 3*(1<<58)}, false},        // total == Max, 4 validators
+		{[]int64{2, 2, 1}, false},                                         // total 5
+		{[]int64{3, 3, 3}, false},                                         // total 9
+		{[]int64{m3, m3, m3 - 1}, false},                                  // total == MaxTotalVotingPower-1
+		{[]int64{3, 1, 1, 1}, false},                                      // total 6
+		{[]int64{4, 3, 2, 1}, false},                                      // total 10
+		{[]int64{97, 1, 1, 1}, false},                                     // total 100
+		{[]int64{1 << 58, 1 << 58, 1 << 58, maxTotal - 3*(1<<58)}, false}, // total == Max, 4 validators
 	}
 }
 
@@ -122,16 +122,20 @@ func vecName(pw []int64) string {
 // ---- tokens ---------------------------------------------------------------------------------
 
 type token struct {
-	name  string // e.g. "v1:A'" or "p:A"
-	kind  string // e.g. "A'" or "!chain" or "claim"
-	val   int    // offering validator (key owner), -1 for claims
-	vote  *types.Vote
-	peer  string
-	claim int
+	idx      int    // position in the universe (per validator: A, B, A', nil, A~, invalid kinds; then claims)
+	name     string // e.g. "v1:A'" or "p:A"
+	kind     string // e.g. "A'" or "!chain" or "claim"
+	val      int    // offering validator (key owner), -1 for claims
+	vote     *types.Vote
+	peer     string
+	claim    int
+	claimBit int
 	// the checker's own classification: the vote counts for validator cv and block cb
 	counts  bool
 	cv, cb  int
 	invalid bool // a vote token that must be refused
+	crypto  bool // an invalid vote that is only refused by signature verification
+	ctxVal  int  // the validator whose slot the vote addresses
 	digest  [32]byte
 }
 
@@ -174,16 +178,16 @@ type universe struct {
 func repoAddr(a address) common.Address { return common.BytesToAddress(a[:]) }
 
 type voteSpec struct {
-	idx     uint32
-	addr    address
-	signer  keyPair
-	h       uint64
-	r       uint32
-	typ     kproto.SignedMsgType
-	blk     int
-	ts      time.Time
-	chain   string
-	mangle  int // 0 none, 1 flip a bit, 2 truncate to 64 bytes
+	idx    uint32
+	addr   address
+	signer keyPair
+	h      uint64
+	r      uint32
+	typ    kproto.SignedMsgType
+	blk    int
+	ts     time.Time
+	chain  string
+	mangle int // 0 none, 1 flip a bit, 2 truncate to 64 bytes
 }
 
 func mkVote(s voteSpec) *types.Vote {
@@ -254,9 +258,18 @@ func newUniverse(keys []keyPair, outsider keyPair, typ kproto.SignedMsgType) *un
 	n := len(keys)
 	u := &universe{n: n, typ: typ, byName: map[string]*token{}, keys: keys, outsider: outsider}
 	add := func(t *token) {
+		t.idx = len(u.toks)
 		if t.vote != nil {
 			t.counts, t.cv, t.cb = classify(u.keys, typ, t.vote)
 			t.digest = voteDigest(t.vote)
+			t.ctxVal = t.val
+			if int(t.vote.ValidatorIndex) < n {
+				t.ctxVal = int(t.vote.ValidatorIndex)
+			}
+			switch t.kind {
+			case "!imp", "!fake", "!chain", "!sig":
+				t.crypto = true
+			}
 		}
 		u.toks = append(u.toks, t)
 		u.byName[t.name] = t
@@ -307,9 +320,11 @@ func newUniverse(keys []keyPair, outsider keyPair, typ kproto.SignedMsgType) *un
 			add(&token{name: fmt.Sprintf("v%d:%s", i, k), kind: k, val: i, vote: mkVote(s), invalid: true})
 		}
 	}
+	bit := 0
 	for _, p := range []string{"p", "q"} {
 		for _, b := range []int{bA, bB} {
-			add(&token{name: p + ":" + blkName[b], kind: "claim", val: -1, peer: p, claim: b})
+			add(&token{name: p + ":" + blkName[b], kind: "claim", val: -1, peer: p, claim: b, claimBit: bit})
+			bit++
 		}
 	}
 	return u
